@@ -404,13 +404,13 @@ Proof. split; [vm_compute; reflexivity|]. eexists. split; vm_compute; reflexivit
 Definition cheese : sblock :=
   mkSBlock [] [FName (lit "Cheese Ball Recipes"%string); FNumb false (lit "1"%string); FType 49;
                FPort (PtNum (lit "150"%string)); FPath (PRel (lit "1/Moo/Cheesy"%string));
-               FHost (HName (lit "zippy.micro.umn.edu"%string))] [].
+               FHost (HName (lit "zippy.micro.umn.edu"%string))] [] [Some (lit " links of this directory"%string); None].
 Definition cool : sblock :=
   mkSBlock [lit " a comment"%string]
            [FName (lit "Cool web site"%string); FType 104; FPath (PAbs (lit "URL:http://hostname"%string));
-            FHost HPlus; FPort PtPlus; FAbstract [lit "two"%string] (lit "lines"%string)] [9].
+            FHost HPlus; FPort PtPlus; FAbstract [lit "two"%string] (lit "lines"%string)] [9] [None; None].
 (* indented by one blank, exactly as the manual prints it under HIDING AN ENTRY *)
-Definition fred_hidden : sblock := mkSBlock [] [FType 88; FPath (PHere (lit "fred"%string))] [32].
+Definition fred_hidden : sblock := mkSBlock [] [FType 88; FPath (PHere (lit "fred"%string))] [32] [].
 
 Lemma example_wf : wf_linkfile [cheese; cool; fred_hidden] = true.
 Proof. vm_compute. reflexivity. Qed.
@@ -766,9 +766,9 @@ Definition ex_fes : list oentry :=
   [(Some (lit "a.txt"%string), ci_entry (file_info (lit "/d/a.txt"%string) (lit "a.txt"%string)));
    (Some (lit "fred"%string), ci_entry (file_info (lit "/d/fred"%string) (lit "fred"%string)))].
 Definition fred_titled : sblock :=
-  mkSBlock [] [FPath (PHere (lit "fred"%string)); FName (lit "Fred again"%string)] [].
+  mkSBlock [] [FPath (PHere (lit "fred"%string)); FName (lit "Fred again"%string)] [] [None; Some []; Some (lit "note"%string); None].
 Definition a_titled : sblock :=
-  mkSBlock [] [FName (lit "Alpha"%string); FPath (PTilde (lit "a.txt"%string)); FNumb false (lit "2"%string)] [32; 9].
+  mkSBlock [] [FName (lit "Alpha"%string); FPath (PTilde (lit "a.txt"%string)); FNumb false (lit "2"%string)] [32; 9] [].
 
 Lemma example_blocks :
   wf_linkfile [fred_hidden; fred_titled; a_titled; cool] = true /\
